@@ -28,138 +28,212 @@ def subst_srv(v, srv):
 
 
 def evaluate(exe, cases):
-    """implementation run (mints the tokens, returns verdict + abstract view), then the model/specification run on
-    the case extended by that abstract view"""
+    """implementation run (mints the tokens, returns verdicts + abstract views), then the model/specification run on
+    the case extended by those abstract views"""
     impl = vlib.run_cases([exe], cases, env=HARNESS_ENV, timeout=1500)
     dcases = []
     for c, i in zip(cases, impl):
         srv = (i.get("info") or {}).get("srv", "$SRV") if isinstance(i, dict) else "$SRV"
-        dc = subst_srv({k: v for k, v in c.items() if k != "note"}, srv)
+        dc = subst_srv({k: v for k, v in c.items() if k not in ("note", "expect", "name")}, srv)
         dc["srv"] = srv
         dc["abs"] = (i.get("abs") if isinstance(i, dict) else None) or {"present": False, "now": 0}
+        dc["abs_pre"] = (i.get("abs_pre") if isinstance(i, dict) else None) or []
+        if len(dc["abs_pre"]) != len(dc.get("pre") or []):
+            dc["pre"], dc["abs_pre"] = [], []
         dcases.append(dc)
     model = vlib.run_cases(vlib.driver_cmd(), dcases, timeout=1500)
     return impl, model
 
 
-def num_norm(v):
-    """numbers are IEEE doubles in heimdall's subject attributes (Go float64): compare them as such"""
-    if isinstance(v, bool) or v is None or isinstance(v, str):
-        return v
-    if isinstance(v, (int, float)):
-        return float(v)
-    if isinstance(v, list):
-        return [num_norm(x) for x in v]
-    if isinstance(v, dict):
-        return {k: num_norm(x) for k, x in v.items()}
-    return v
+def cmp_num(x, y, exact):
+    """numbers of subject attributes. The implementation delivers Go float64 values (printed in shortest form);
+    against the model (which rounds) they are compared as doubles, against the specification exactly:
+    -> 'same' | 'rounded' (equal as doubles, but the specified integer is not representable) | 'diff'"""
+    try:
+        if float(x) != float(y):
+            return "diff"
+    except OverflowError:
+        return "diff"
+    if exact and isinstance(y, int) and int(float(y)) != y:
+        return "rounded"
+    return "same"
 
 
-def same(a, b):
-    """verdicts equal (subject id exactly, attributes as JSON with double-precision numbers)"""
-    if not isinstance(a, dict) or not isinstance(b, dict):
-        return False
-    if a.get("verdict") != b.get("verdict"):
-        return False
-    if a.get("verdict") == "accept":
-        return a.get("id") == b.get("id") and num_norm(a.get("attrs")) == num_norm(b.get("attrs"))
-    return True
+def cmp_val(a, b, exact):
+    if isinstance(a, bool) or isinstance(b, bool) or a is None or b is None or isinstance(a, str) or isinstance(b, str):
+        return "same" if (a == b and type(a) is type(b)) else "diff"
+    if isinstance(a, (int, float)) and isinstance(b, (int, float)):
+        return cmp_num(a, b, exact)
+    if isinstance(a, list) and isinstance(b, list):
+        if len(a) != len(b):
+            return "diff"
+        rs = [cmp_val(x, y, exact) for x, y in zip(a, b)]
+    elif isinstance(a, dict) and isinstance(b, dict):
+        if set(a) != set(b):
+            return "diff"
+        rs = [cmp_val(a[k], b[k], exact) for k in a]
+    else:
+        return "diff"
+    return "diff" if "diff" in rs else ("rounded" if "rounded" in rs else "same")
+
+
+def cmp_verdict(i, o, exact):
+    """implementation verdict against a model (exact=False) or specification (exact=True) verdict"""
+    if not isinstance(i, dict) or not isinstance(o, dict) or i.get("verdict") != o.get("verdict"):
+        return "diff"
+    if i.get("verdict") == "accept":
+        if i.get("id") != o.get("id"):
+            return "diff"
+        return cmp_val(i.get("attrs"), o.get("attrs"), exact)
+    return "same"
 
 
 SKIP = ("ambiguous", "unmodelled")
+KNOWN_ATTRS = "C05-attrs-float64"
 
 
-def judge(i, m):
-    """-> (status, text): status in ok | skip | broken | model | spec"""
+def judge(c, i, m):
+    """-> (status, text): status in ok | known | skip | broken | model | spec | oracle"""
     if not isinstance(i, dict) or "res" not in i:
         return "broken", "implementation side failed on the case: " + json.dumps(i)[:400]
     if not isinstance(m, dict) or "res" not in m:
         return "broken", "model side failed on the case: " + json.dumps(m)[:400]
-    ir, mr, sr = i["res"], m["res"], m["spec"]
     if (i.get("info") or {}).get("clock_ok") is False:
         return "skip", "the case never ran inside one clock second"
-    if mr.get("verdict") in SKIP or sr.get("verdict") in SKIP:
-        return "skip", mr.get("verdict")
-    if ir.get("verdict") in ("both", "neither"):
-        return "spec", "the authenticator returned %s a subject and an error" % ir["verdict"]
-    if not same(ir, sr):
-        iv, sv = ir.get("verdict"), sr.get("verdict")
-        if iv == "accept" and sv != "accept":
-            return "spec", ("a token that has to be rejected yields the subject '%s' (model: %s)"
-                            % (ir.get("id"), m.get("stats", {}).get("why")))
-        if sv == "accept" and iv != "accept":
-            return "spec", ("a correctly signed token satisfying all assertions is refused (%s, error kind %s)"
-                            % (iv, (i.get("info") or {}).get("kind")))
-        if iv == "accept" and sv == "accept":
-            if ir.get("id") != sr.get("id"):
-                return "spec", ("subject id '%s' is not the value of the verified claim ('%s')"
-                                % (ir.get("id"), sr.get("id")))
-            return "spec", "subject attributes are not the verified claims"
-        return "spec", f"authenticator creation: implementation {iv}, specification {sv}"
-    if not same(ir, mr):
-        return "model", "implementation agrees with the specification but not with the model"
-    return "ok", ""
+    ir, mr, specs = i["res"], m["res"], m["spec"]
+    isteps = list(ir.get("pre") or []) + [ir]
+    msteps = list(mr.get("pre") or []) + [mr]
+    if len(isteps) != len(msteps) or len(specs) != len(msteps):
+        if ir.get("verdict") == "config" and mr.get("verdict") == "config":
+            return "ok", ""
+        return "broken", "step counts differ: implementation %d, model %d" % (len(isteps), len(msteps))
+    status = "ok"
+    for k, (iv, mv, cands) in enumerate(zip(isteps, msteps, specs)):
+        where = "" if k == len(isteps) - 1 else " (request %d of %d)" % (k + 1, len(isteps))
+        if mv.get("verdict") in SKIP or any(s.get("verdict") in SKIP for s in cands):
+            return "skip", mv.get("verdict")
+        if iv.get("verdict") in ("both", "neither"):
+            return "spec", "the authenticator returned %s a subject and an error%s" % (iv["verdict"], where)
+        rs = [cmp_verdict(iv, s, True) for s in cands]
+        if "same" not in rs:
+            if "rounded" in rs:
+                status = "known"
+            else:
+                sv = cands[-1]
+                a, b = iv.get("verdict"), sv.get("verdict")
+                hist = "" if len(cands) == 1 else " (nor by a key set served earlier for this url)"
+                if a == "accept" and b != "accept":
+                    return "spec", ("a token that has to be rejected yields the subject %s%s%s (model: %s)"
+                                    % (json.dumps(iv.get("id")), where, hist, (m.get("stats") or {}).get("why")))
+                if b == "accept" and a != "accept":
+                    return "spec", ("a correctly signed token satisfying all assertions is refused%s (%s, error kind %s)"
+                                    % (where, a, (i.get("info") or {}).get("kind")))
+                if a == "accept" and b == "accept":
+                    if iv.get("id") != sv.get("id"):
+                        return "spec", ("subject id %s is not the value of the verified claim (%s)%s"
+                                        % (json.dumps(iv.get("id")), json.dumps(sv.get("id")), where))
+                    return "spec", "subject attributes are not the verified claims%s" % where
+                return "spec", f"authenticator creation: implementation {a}, specification {b}"
+        if cmp_verdict(iv, mv, False) != "same":
+            return "model", "implementation agrees with the specification but not with the model" + where
+    exp = c.get("expect")
+    if exp:
+        # with earlier requests the specification admits the key sets served so far; the ground truth is then
+        # compared with the (admissible) verdict of the implementation
+        sv = ir.get("verdict") if c.get("pre") else specs[-1][-1].get("verdict")
+        if sv != exp.split()[0]:
+            return "oracle", ("the specification says %s where the generator constructed a case that must %s (%s)"
+                              % (sv, exp, c.get("note") or c.get("name")))
+    return status, ""
 
 
 # ---------------------------------------------------------------------------------------------------------------
 # shrinking
 
+BAD = ("spec", "model", "oracle", "broken")
+USUAL_DEFAULTS = ["ES256", "ES384", "ES512", "PS256", "PS384", "PS512"]
+
+
+def ground_truth_applies(c, facts):
+    """the recorded / constructed expectation of a case presupposes that the token's algorithm is supported at all
+    and, where no allowed algorithms are configured, the usual default list; a policy change of these lists is not
+    a violation of the property, so the expectation is dropped then (model and specification follow the lists)"""
+    steps = list(c.get("pre") or []) + [c]
+    for st in steps:
+        tok = st.get("token")
+        if not tok:
+            continue
+        alg = (tok.get("hdr") or {}).get("alg")
+        if alg is not None and alg in gen_jwt.KNOWN_ALGS and alg not in facts["supported"]:
+            return False
+    configured = any("allowed_algorithms" in (x.get("assertions") or {})
+                     for x in (c.get("conf") or {}, c.get("rule") or {}))
+    if not configured and sorted(facts["default_allowed"]) != sorted(USUAL_DEFAULTS):
+        return False
+    return True
+
+
 def shrink(exe, case):
     """greedy structural shrinking; all candidates of a round are evaluated in one batch"""
     cur = copy.deepcopy(case)
-    for _ in range(14):
+    cur.pop("expect", None)      # the generator's ground truth does not survive structural edits
+    for _ in range(16):
         cands = []
+
+        def edit(f):
+            c = copy.deepcopy(cur)
+            try:
+                f(c)
+            except (KeyError, IndexError, TypeError):
+                return
+            cands.append(c)
+
+        for k in range(len(cur.get("pre") or [])):
+            edit(lambda c, k=k: c["pre"].pop(k))
         tok = cur.get("token")
         if tok:
             for k in range(len(tok.get("mut", []))):
-                c = copy.deepcopy(cur)
-                del c["token"]["mut"][k]
-                cands.append(c)
+                edit(lambda c, k=k: c["token"]["mut"].pop(k))
             for f in list((tok.get("claims") or {}).keys()):
                 if f in ("iss", "sub"):
                     continue
-                c = copy.deepcopy(cur)
-                del c["token"]["claims"][f]
-                cands.append(c)
+
+                def drop_claim(c, f=f):
+                    del c["token"]["claims"][f]
+                    for st in c.get("pre") or []:
+                        (st.get("token") or {}).get("claims", {}).pop(f, None)
+                edit(drop_claim)
             if (tok.get("signer") or {}).get("kind") == "jose":
-                c = copy.deepcopy(cur)
-                c["token"]["signer"]["kind"] = "key"
-                cands.append(c)
-        keys = cur["jwks"]["keys"]
-        for k in range(len(keys)):
-            c = copy.deepcopy(cur)
-            del c["jwks"]["keys"][k]
-            cands.append(c)
-        for k, key in enumerate(keys):
-            if key.get("cert", "none") != "none":
-                c = copy.deepcopy(cur)
-                c["jwks"]["keys"][k]["cert"] = "none"
-                cands.append(c)
+                edit(lambda c: c["token"]["signer"].update(kind="key"))
+        sets = [("main", None)] + [("main", iss) for iss in (cur["jwks"].get("by_issuer") or {})]
+
+        def keyset(c, iss):
+            return c["jwks"] if iss is None else c["jwks"]["by_issuer"][iss]
+
+        for _, iss in sets:
+            keys = keyset(cur, iss)["keys"]
+            for k in range(len(keys)):
+                edit(lambda c, k=k, iss=iss: keyset(c, iss)["keys"].pop(k))
+            for k, key in enumerate(keys):
+                if key.get("cert", "none") != "none":
+                    edit(lambda c, k=k, iss=iss: keyset(c, iss)["keys"][k].update(cert="none"))
         if cur.get("rule"):
-            c = copy.deepcopy(cur)
-            c["rule"] = None
-            cands.append(c)
+            edit(lambda c: c.update(rule=None))
             for f in list((cur["rule"].get("assertions") or {}).keys()):
-                c = copy.deepcopy(cur)
-                del c["rule"]["assertions"][f]
-                cands.append(c)
+                edit(lambda c, f=f: c["rule"]["assertions"].pop(f))
         for f in list((cur["conf"].get("assertions") or {}).keys()):
             if f == "issuers":
                 continue
-            c = copy.deepcopy(cur)
-            del c["conf"]["assertions"][f]
-            cands.append(c)
+            edit(lambda c, f=f: c["conf"]["assertions"].pop(f))
         for f in ("subject", "validate_jwk", "cache_ttl"):
             if cur["conf"].get(f) is not None:
-                c = copy.deepcopy(cur)
-                c["conf"][f] = None
-                cands.append(c)
+                edit(lambda c, f=f: c["conf"].update({f: None}))
         if not cands:
             break
         impl, model = evaluate(exe, cands)
         nxt = None
         for c, i, m in zip(cands, impl, model):
-            if judge(i, m)[0] in ("spec", "model"):
+            if judge(c, i, m)[0] in ("spec", "model"):
                 nxt = c
                 break
         if nxt is None:
@@ -172,50 +246,60 @@ def shrink(exe, case):
 
 def run(R):
     harness_env(R)
-    tie_error = None
-    try:
-        facts = gen_jwt.write_gen()
-    except gen_jwt.ExtractError as e:
-        facts, tie_error = None, str(e)
-    lean_ok = vlib.step_lean(R, PID)
     exe = vlib.step_harness(R)
     if exe is None:
+        vlib.step_lean(R, PID)
         R.violation("harness does not build against /repo (API used by the correspondence check changed)",
                     {"build_log": R.harness_log[-3000:]}, no_input=True)
         return
+    tie_error = None
+    try:
+        facts = gen_jwt.write_gen(exe, HARNESS_ENV)
+    except gen_jwt.ExtractError as e:
+        facts, tie_error = None, str(e)
+    lean_ok = vlib.step_lean(R, PID)
     if not os.path.exists(vlib.driver_cmd()[0]):
         R.violation("the model driver does not build", {"lean_log": R.lean["log"]}, no_input=True)
         return
     quick = R.tier == "quick"
     corpus = vlib.load_corpus(PID)
-    n = 2500 if quick else 90000
+    n = 2500 if quick else 80000
     cases = corpus + gen_jwt.catalogue() + [gen_jwt.gen_case(R.rng) for _ in range(n)]
+    if facts:
+        for c in cases:
+            if c.get("expect") and not ground_truth_applies(c, facts):
+                c.pop("expect")
     impl, model = evaluate(exe, cases)
 
     status = collections.Counter()
     why = collections.Counter()
+    why_pre = collections.Counter()
     kinds = collections.Counter()
     notes_t = collections.Counter()
     notes_k = collections.Counter()
     algs = collections.Counter()
     accepted_by_alg = collections.Counter()
-    noncanonical_accepted = 0
+    dims = collections.Counter()
+    truth = collections.Counter()
+    requests = 0
     retries = 0
     nontriv = set()
     bad = []
     samples, sampled = [], set()
     for c, i, m in zip(cases, impl, model):
-        st, text = judge(i, m)
-        if st == "ok" and c.get("expect") and m["spec"].get("verdict") != c["expect"].split()[0]:
-            st, text = "model", ("corpus case %s: the specification says %s, recorded expectation: %s"
-                                 % (c.get("name"), m["spec"].get("verdict"), c["expect"]))
+        st, text = judge(c, i, m)
         status[st] += 1
-        if st in ("spec", "model", "broken"):
+        if st == "known":
+            R.known_hits[KNOWN_ATTRS] = R.known_hits.get(KNOWN_ATTRS, 0) + 1
+        if st in BAD:
             bad.append((c, i, m, st, text))
         if not (isinstance(m, dict) and "stats" in m and isinstance(i, dict) and "res" in i):
             continue
         w = m["stats"]["why"]
         why[w] += 1
+        for x in m["stats"].get("why_pre") or []:
+            why_pre[x] += 1
+        requests += 1 + len(c.get("pre") or [])
         info = i.get("info") or {}
         kinds[info.get("kind", "-")] += 1
         retries += max(0, info.get("tries", 1) - 1)
@@ -226,69 +310,87 @@ def run(R):
         else:
             notes_t[t] += 1
         notes_k[{"g": "guided", "cat": "catalogue"}.get(k, "wild:" + k)] += 1
+        if c.get("expect"):
+            truth[c["expect"].split()[0]] += 1
+        conf = c.get("conf") or {}
+        dims["earlier_requests"] += 1 if c.get("pre") else 0
+        dims["templated_endpoint"] += 1 if conf.get("templated") else 0
+        dims["metadata_endpoint"] += 1 if c.get("mode") == "metadata" else 0
+        dims["rule_level_config"] += 1 if c.get("rule") else 0
+        dims["cache_disabled"] += 1 if ((c.get("rule") or {}).get("cache_ttl") or conf.get("cache_ttl")) == "0s" else 0
+        dims["non_ascii"] += 1 if any(ord(ch) > 127 for ch in json.dumps(gen_jwt.slim(c), ensure_ascii=False)) else 0
         a = (i.get("abs") or {})
         if a.get("wf"):
             algs[a.get("alg")] += 1
             if i["res"].get("verdict") == "accept":
                 accepted_by_alg[a.get("alg")] += 1
-                if a.get("canonical") is False:
-                    noncanonical_accepted += 1
         if w not in ("noToken", "malformed", "config", "payload", "metadata", "keySet"):
             nontriv.add(vlib.case_hash(gen_jwt.slim(c)))
-        key = (w,)
-        if key not in sampled and len(samples) < 6 and c.get("note"):
+        key = (w, bool(c.get("pre")))
+        if key not in sampled and len(samples) < 8 and c.get("note"):
             sampled.add(key)
             samples.append({"case": gen_jwt.slim(c), "implementation": i["res"], "model": m["res"], "why": w})
     R.coverage.update({
-        "evaluations": len(cases), "distinct_nontrivial": len(nontriv),
-        "rule": "a case = authenticator configuration (JWKS or metadata endpoint, assertions, subject paths, JWK "
-                "validation) + optional rule-level assertions + key set served by a loopback endpoint + token recipe "
-                "(signer, header, claims relative to the current second, mutations of the compact serialisation); the "
-                "real authenticator (CreatePrototype -> WithConfig -> Execute) is compared with the Lean model and the "
-                "Lean specification evaluated on the abstract view of the minted token; non-trivial = the token parses "
-                "and a key set was fetched, i.e. the verdict is decided by key selection, algorithm agreement, "
-                "signature, claims or subject extraction; distinct by hash of the case",
+        "evaluations": len(cases), "distinct_nontrivial": len(nontriv), "requests_executed": requests,
+        "rule": "a case = authenticator configuration (JWKS or metadata endpoint, templated or not, assertions, subject "
+                "paths, JWK validation, cache_ttl) + optional rule-level configuration + key sets served by a loopback "
+                "endpoint + token recipe (signer, header, claims relative to the current second, mutations of the "
+                "compact serialisation) + optionally earlier requests to the same authenticator and (real, in-memory) "
+                "JWK cache, each with its own key sets; the real authenticator (CreatePrototype -> WithConfig -> "
+                "Execute) is compared request by request with the Lean model (Jwt.run) and with the Lean specification "
+                "(Spec.authenticate, written over the raw payload) evaluated on the abstract view of the minted tokens; "
+                "the generator's own ground truth (a scenario built to satisfy every clause must be accepted, one with "
+                "a single certainly fatal deviation must be rejected) is checked against the specification; "
+                "non-trivial = the token of the last request parses and a key set was fetched, i.e. the verdict is "
+                "decided by key selection, algorithm agreement, signature, claims or subject extraction; distinct by "
+                "hash of the case",
         "corpus_cases": len(corpus), "catalogue_cases": len(gen_jwt.catalogue()), "random_cases": n,
-        "verdict_reasons_model": dict(why), "error_kinds_implementation": dict(kinds),
-        "token_recipes": dict(notes_t), "keyset_recipes": dict(notes_k),
+        "verdict_reasons_model": dict(why), "verdict_reasons_model_earlier_requests": dict(why_pre),
+        "error_kinds_implementation": dict(kinds),
+        "token_recipes": dict(notes_t), "keyset_recipes": dict(notes_k), "dimensions": dict(dims),
+        "cases_with_generator_ground_truth": dict(truth),
         "header_algorithms_of_parsable_tokens": dict(algs), "accepted_by_algorithm": dict(accepted_by_alg),
-        "accepted_with_non_canonical_base64": noncanonical_accepted,
         "judgements": dict(status), "clock_second_retries": retries,
         "generated_facts": facts, "samples": samples, "exhaustive": False,
     })
     R.assumptions += [
         "signature verification is an oracle in the model (Token.sigOk); the harness evaluates it for the minted token "
-        "with the Go standard library (crypto/rsa, ecdsa, ed25519, hmac) over the canonical signing input, "
-        "independently of go-jose and heimdall",
-        "a 'modification' of a token is a modification of the decoded octets of header, payload or signature: Go's "
-        "base64 decoder ignores CR/LF and the unused trailing bits of the last character, such re-encodings of the "
-        "same token are accepted (counted in accepted_with_non_canonical_base64)",
+        "with the Go standard library (crypto/rsa, ecdsa, ed25519, hmac; RFC 7518 minimum HMAC key size) over the "
+        "canonical signing input, independently of go-jose and heimdall",
         "certificate chain validation (pkix.ValidateCertificate), JWKS / metadata transport, go-jose parsing and gjson "
-        "are validated by the correspondence run only; gjson paths are restricted to member names and array indices",
-        "numbers in subject attributes are compared as IEEE doubles (Go float64 by type); leeways are multiples of 1 ms",
+        "are validated by the correspondence run only; gjson paths are restricted to member names and array indices "
+        "(anything else is reported as unmodelled and skipped)",
+        "sequences of requests are shorter than every cache TTL (>= 10 s) and use one authenticator instance; the "
+        "HTTP cache of the metadata endpoint is not varied (the metadata document is the same for all requests of a case)",
+        "numeric claims are exact decimals in the model; Go parses them as float64 (dates with more than 15 "
+        "significant digits next to a range boundary are not generated); leeways are multiples of 1 ms",
+        "known finding C05-attrs-float64: integral attribute numbers beyond 2^53 arrive rounded; such cases are "
+        "counted as known, the implementation still has to agree with the (rounding) model",
     ]
     seen = set()
     for c, i, m, st, text in bad[:40]:
-        sig = re.sub(r"'[^']*'", "'..'", text)[:90]
+        sig = re.sub(r'"[^"]*"', '".."', text)[:90]
         if sig in seen:
             continue
         seen.add(sig)
         sc = shrink(exe, c) if st in ("spec", "model") else c
         si, sm = evaluate(exe, [sc])
-        st2, text2 = judge(si[0], sm[0])
-        if st2 not in ("spec", "model", "broken"):
+        st2, text2 = judge(sc, si[0], sm[0])
+        if st2 not in BAD:
             sc, si, sm, st2, text2 = c, [i], [m], st, text
         R.violation(text2, {"case": gen_jwt.slim(sc), "impl": si[0].get("res") if isinstance(si[0], dict) else si[0],
                             "token": ((si[0].get("info") or {}).get("token") if isinstance(si[0], dict) else None),
                             "abs": si[0].get("abs") if isinstance(si[0], dict) else None,
                             "model": sm[0].get("res") if isinstance(sm[0], dict) else sm[0],
                             "spec": sm[0].get("spec") if isinstance(sm[0], dict) else None,
-                            "kind": "impl-vs-spec" if st2 == "spec" else "impl-vs-model"}, no_input=(st2 != "spec"))
+                            "kind": {"spec": "impl-vs-spec", "model": "impl-vs-model",
+                                     "oracle": "spec-vs-generator-ground-truth"}.get(st2, st2)},
+                    no_input=(st2 != "spec"))
         if len(R.violations) >= 4:
             break
     R.coverage["disagreements_checked"] = len(bad)
     if tie_error:
-        R.violation("algorithm lists could not be extracted from the source (broken tie): " + tie_error,
+        R.violation("the algorithm lists could not be obtained from the linked code (broken tie): " + tie_error,
                     {"extractor": tie_error}, no_input=True)
     if not lean_ok:
         R.violation("theorems of Props/C05.lean no longer check: " + "; ".join(R.lean["failed"])[:600],
@@ -300,8 +402,8 @@ def replay(R, path):
     with open(path) as fh:
         p = json.load(fh)
     harness_env(R)
-    gen_jwt.write_gen()
     exe = vlib.step_harness(R)
+    gen_jwt.write_gen(exe, HARNESS_ENV)
     c = p["case"]
     i, m = evaluate(exe, [c])
     print("impl :", json.dumps(i[0].get("res") if isinstance(i[0], dict) else i[0]))
@@ -309,6 +411,6 @@ def replay(R, path):
     print("model:", json.dumps(m[0].get("res") if isinstance(m[0], dict) else m[0]))
     print("spec :", json.dumps(m[0].get("spec") if isinstance(m[0], dict) else m[0]))
     R.coverage.update({"obligations": 1, "discharged": 1, "checker_cmd": "replay", "trusted_base": []})
-    st, text = judge(i[0], m[0])
-    if st in ("spec", "model", "broken"):
+    st, text = judge(c, i[0], m[0])
+    if st in BAD:
         R.violation("replay still differs: " + text, {"case": c, "impl": i[0], "model": m[0]})
